@@ -69,7 +69,11 @@ Finish(t, e) ==   \* the current call of t returns e
 Start(t) ==
   /\ pc[t] = "N" /\ More(t)
   /\ LET o == Cur(t) IN
-     CASE o.api = "SD" ->
+     CASE o.api = "XC" ->
+            \* Close() only closes the transport: no lock, no frame
+            /\ mon' = Ret(Call(mon, t, CallRec(t)), t, Nil, FALSE)
+            /\ ip' = [ip EXCEPT ![t] = ip[t] + 1] /\ UNCHANGED << pc, wmsg, seen >>
+       [] o.api = "SD" ->
             /\ mon' = Ret(Call(mon, t, CallRec(t)), t, Nil, FALSE)
             /\ ip' = [ip EXCEPT ![t] = ip[t] + 1] /\ UNCHANGED << pc, wmsg, seen >>
        [] o.api = "NW" ->
